@@ -141,6 +141,89 @@ def div(a: tuple, b: tuple) -> tuple:
     return mul(a, power(b, const(-1)))
 
 
+# ----------------------------------------------------------------------------- sequences
+SEQ_KINDS = {"tuple", "list", "seq", "upd", "concat", "repeat"}
+
+
+def single_atom(p: tuple):
+    """The atom a if p == a (coefficient 1, exponent 1), else None."""
+    sm = single_mono(p)
+    if sm and sm[1] == 1 and len(sm[0]) == 1 and is_const(sm[0][0][1]) == 1:
+        return sm[0][0][0]
+    return None
+
+
+def is_seq_kind(p: tuple) -> bool:
+    a = single_atom(p)
+    if a is None:
+        return False
+    if a[0] in SEQ_KINDS:
+        return True
+    if a[0] == "call" and a[1] in ("tuple", "list", "sorted"):
+        return True
+    if a[0] == "sub":
+        b = single_atom(a[1])
+        if b is not None and b[0] == "seq" and is_seq_kind(b[1]):
+            return True
+    return False
+
+
+def concat(a: tuple, b: tuple) -> tuple:
+    parts = []
+    for x in (a, b):
+        ax = single_atom(x)
+        if ax is not None and ax[0] == "concat":
+            parts.extend(ax[1])
+        else:
+            parts.append(x)
+    return atom_poly(("concat", tuple(parts)))
+
+
+def upd(base: tuple, idx: tuple, val: tuple) -> tuple:
+    """Sequence `base` with element idx replaced by val (models t = list(x); t[i] = v)."""
+    a = single_atom(base)
+    if a is not None and a[0] == "upd":
+        b0, updates = a[1], dict(a[2])
+    else:
+        b0, updates = _strip_seq_conv(base), {}
+    updates[idx] = val
+    return atom_poly(("upd", b0, tuple(sorted(updates.items(), key=lambda kv: _key(kv[0])))))
+
+
+def _strip_seq_conv(p: tuple) -> tuple:
+    """list(x) / tuple(x) hold the same elements as x."""
+    a = single_atom(p)
+    while a is not None and a[0] == "call" and a[1] in ("list", "tuple") and len(a[2]) == 1:
+        p = a[2][0]
+        a = single_atom(p)
+    return p
+
+
+def subscript(base: tuple, idx: tuple) -> tuple:
+    a = single_atom(base)
+    if a is not None and a[0] == "call" and a[1] in ("list", "tuple") and len(a[2]) == 1:
+        return subscript(a[2][0], idx)
+    if a is not None and a[0] == "upd":
+        for k, v in a[2]:
+            if k == idx:
+                return v
+        ci = is_const(idx)
+        if ci is not None and all(is_const(k) is not None for k, _ in a[2]):
+            return subscript(a[1], idx)
+        if all(_provably_distinct(k, idx) for k, _ in a[2]):
+            return subscript(a[1], idx)
+    if a is not None and a[0] in ("tuple", "list"):
+        ci = is_const(idx)
+        if ci is not None and ci.denominator == 1 and -len(a[1]) <= ci < len(a[1]):
+            return a[1][int(ci)]
+    return atom_poly(("sub", base, (idx,)))
+
+
+def _provably_distinct(a: tuple, b: tuple) -> bool:
+    d = is_const(sub(a, b))
+    return d is not None and d != 0
+
+
 # ----------------------------------------------------------------------------- substitution / queries
 def subst(p, name: str, repl: tuple):
     """Replace the symbol `name` by poly repl everywhere (including inside atoms and exponents)."""
@@ -273,11 +356,13 @@ def _show_atom(at) -> str:
         return f"{at[1]}(" + ", ".join(show(x) for x in at[2]) + ")"
     if k == "sub":
         return f"{show(at[1])}[" + ", ".join(show(x) for x in at[2]) + "]"
-    if k in ("sum", "prod"):
+    if k in ("sum", "prod", "seq"):
         return f"{k}<{show(at[1])} | {_show_dom(at[2])}>"
+    if k == "dictacc":
+        return "dict{" + "; ".join(f"{e[0]} [{show(e[1])}] {show(e[2])} for " + ", ".join(_show_dom(c[0]) + ("" if not c[2] else " if " + " and ".join(show(q) for q in c[2])) for c in e[3]) for e in at[1]) + "}"
     if k == "opaque":
         return f"?{at[1]}?"
-    return k + "(" + ", ".join(show(x) if isinstance(x, tuple) else str(x) for x in at[1:]) + ")"
+    return k + "(" + ", ".join(_show_dom(x) if isinstance(x, tuple) else str(x) for x in at[1:]) + ")"
 
 
 def _show_dom(d) -> str:
@@ -285,8 +370,10 @@ def _show_dom(d) -> str:
         return f"range({show(d[1])},{show(d[2])})"
     if isinstance(d, tuple) and d and d[0] == "P":
         return show(d)
-    if isinstance(d, tuple):
+    if isinstance(d, tuple) and d and isinstance(d[0], str):
         return d[0] + "(" + ", ".join(_show_dom(x) for x in d[1:]) + ")"
+    if isinstance(d, tuple):
+        return "(" + ", ".join(_show_dom(x) for x in d) + ")"
     return str(d)
 
 
@@ -318,6 +405,7 @@ class Translator:
     def child(self, extra: Dict[str, tuple]) -> "Translator":
         t = Translator(self.env, self.call_hook, self.depth + 1)
         t.env.update(extra)
+        t._base_level = getattr(self, "_base_level", 0)
         return t
 
     def opaque(self, node) -> tuple:
@@ -359,6 +447,8 @@ class Translator:
     def t_Subscript(self, n):
         base = self.tr(n.value)
         idx = n.slice
+        if not isinstance(idx, (ast.Tuple, ast.Slice)):
+            return subscript(base, self.tr(idx))
         if isinstance(idx, ast.Tuple):
             ix = tuple(self.tr(e) for e in idx.elts)
         elif isinstance(idx, ast.Slice):
@@ -389,7 +479,12 @@ class Translator:
         a, b = self.tr(n.left), self.tr(n.right)
         op = n.op
         if isinstance(op, ast.Add):
+            if is_seq_kind(a) or is_seq_kind(b):
+                return concat(a, b)
             return add(a, b)
+        if isinstance(op, ast.Mult) and (is_seq_kind(a) or is_seq_kind(b)):
+            sq, k = (a, b) if is_seq_kind(a) else (b, a)
+            return atom_poly(("repeat", sq, k))
         if isinstance(op, ast.Sub):
             return sub(a, b)
         if isinstance(op, ast.Mult):
@@ -463,6 +558,9 @@ class Translator:
         if name in ("list", "tuple") and len(args) == 1 and not kw:
             return atom_poly(("call", name, (self.tr(args[0]),)))
         targs = tuple(self.tr(a) for a in args)
+        if not isinstance(n.func, (ast.Name, ast.Attribute)):
+            # call of a computed callee, e.g. a callback table entry self._arr_fp[i](deg)
+            return atom_poly(("apply", self.tr(n.func), targs + kw))
         if isinstance(n.func, ast.Attribute) and astx.attr_path(n.func) is None:
             # method call on a computed receiver
             return atom_poly(("call", "." + n.func.attr, (self.tr(n.func.value),) + targs + kw))
@@ -495,25 +593,29 @@ class Translator:
         return ("iter", self.tr(it))
 
     def bind(self, target: ast.AST, level: int) -> Dict[str, tuple]:
-        """Bound-variable environment for a loop/comprehension target at de Bruijn level."""
+        """Bound-variable environment for a loop/comprehension target at de Bruijn level: a name target is
+        the bound variable #level itself, tuple targets are its components #level[i] (so `for u, v in E`
+        and `for e in E: u, v = e` coincide)."""
         env = {}
-        if isinstance(target, ast.Name):
-            env[target.id] = sym(f"#{level}")
-        elif isinstance(target, (ast.Tuple, ast.List)):
-            for i, e in enumerate(target.elts):
-                if isinstance(e, ast.Name):
-                    env[e.id] = sym(f"#{level}.{i}")
-                elif isinstance(e, (ast.Tuple, ast.List)):
-                    for j, ee in enumerate(e.elts):
-                        if isinstance(ee, ast.Name):
-                            env[ee.id] = sym(f"#{level}.{i}.{j}")
+        bv = sym(f"#{level}")
+
+        def rec(t, val):
+            if isinstance(t, ast.Name):
+                env[t.id] = val
+            elif isinstance(t, (ast.Tuple, ast.List)):
+                for i, e in enumerate(t.elts):
+                    rec(e, subscript(val, const(i)))
+            elif isinstance(t, ast.Starred):
+                rec(t.value, atom_poly(("rest", val)))
+        rec(target, bv)
         return env
 
     def reduction(self, op: str, arg: ast.AST) -> Optional[tuple]:
         if isinstance(arg, (ast.ListComp, ast.GeneratorExp)):
             return self.comp_reduction(op, arg.elt, arg.generators)
         # sum(x) over an opaque iterable
-        return atom_poly((op, sym("#elem"), self.domain(arg)))
+        lvl = self._level()
+        return atom_poly((op, sym(f"#{lvl}"), self.domain(arg), lvl))
 
     def comp_reduction(self, op: str, elt: ast.AST, gens: List[ast.comprehension]) -> tuple:
         g = gens[0]
@@ -528,8 +630,16 @@ class Translator:
             body = inner.tr(elt)
         return make_reduce(op, body, dom, level)
 
+    def t_Dict(self, n):
+        if not n.keys:
+            return atom_poly(("emptydict",))
+        return atom_poly(("dict", tuple((self.tr(k) if k is not None else "**", self.tr(v)) for k, v in zip(n.keys, n.values))))
+
+    def t_Set(self, n):
+        return atom_poly(("set", tuple(sorted((self.tr(e) for e in n.elts), key=_key))))
+
     def _level(self) -> int:
-        lv = 0
+        lv = getattr(self, "_base_level", 0)
         for v in self.env.values():
             for leaf in leaves(v):
                 if leaf.startswith("#") and leaf[1:].split(".")[0].isdigit():
@@ -545,7 +655,7 @@ class Translator:
             dom = ("filter", dom, tuple(inner.tr(c) for c in g.ifs))
         if len(n.generators) > 1:
             return self.opaque(n)
-        return atom_poly(("seq", inner.tr(n.elt), dom))
+        return atom_poly(("seq", inner.tr(n.elt), dom, level))
 
     t_GeneratorExp = t_ListComp
 
@@ -566,7 +676,7 @@ def make_reduce(op: str, body: tuple, dom, level: int) -> tuple:
         lo, hi = dom[1], dom[2]
         if bv not in leaves(lo) and bv not in leaves(hi):
             deg = degree_in(body, bv)
-            if deg is not None and deg <= 2 and not any(l.startswith(bv + ".") for l in leaves(body)):
+            if deg is not None and deg <= 2:
                 # Faulhaber: sum_{v=lo}^{hi-1} (a + b v + c v^2)
                 a, b = coeff_in(body, bv, 0), coeff_in(body, bv, 1)
                 c = coeff_in(body, bv, 2) if deg == 2 else ZERO
@@ -578,9 +688,8 @@ def make_reduce(op: str, body: tuple, dom, level: int) -> tuple:
                     return div(mul(mul(sub(x, ONE), x), sub(mul(const(2), x), ONE)), const(6))
                 s2 = sub(sq(hi), sq(lo))
                 return add(add(mul(a, s0), mul(b, s1)), mul(c, s2))
-    if op == "prod" and isinstance(dom, tuple) and dom[0] == "range":
-        pass
-    return atom_poly((op, body, dom))
+    # indicator factors become filters of the domain:  sum_{x in D} [c(x)] f(x) = sum_{x in filter(D, c)} f(x)
+    return atom_poly((op, body, dom, level))
 
 
 def _factors_of_single(p: tuple):
@@ -658,6 +767,71 @@ def _is_integer_valued(v: tuple) -> bool:
     return False
 
 
+# ----------------------------------------------------------------------------- canonical bound variables
+REDUCE_KINDS = ("sum", "prod", "seq")
+
+
+def rename_bound(x, old: str, new: str):
+    """Rename symbols old / old.* to new / new.* everywhere in a term or nested tuple structure."""
+    def f(at):
+        if at[0] == "sym" and (at[1] == old or at[1].startswith(old + ".")):
+            return atom_poly(("sym", new + at[1][len(old):]))
+        return None
+    return _map_any(x, f)
+
+
+def _map_any(x, f):
+    if isinstance(x, tuple) and x and x[0] == "P":
+        return _map(x, f)
+    if isinstance(x, tuple):
+        return tuple(_map_any(y, f) for y in x)
+    return x
+
+
+def canon(x, depth: int = 0):
+    """Alpha-rename bound variables of reductions by nesting depth (@0, @1, ...), innermost last."""
+    if isinstance(x, tuple) and x and x[0] == "P":
+        out = ZERO
+        for m, c in x[1]:
+            t = const(c)
+            for at, e in m:
+                t = mul(t, power(canon_atom(at, depth), canon(e, depth)))
+            out = add(out, t)
+        return out
+    if isinstance(x, tuple):
+        return tuple(canon(y, depth) for y in x)
+    return x
+
+
+def canon_atom(at: tuple, depth: int) -> tuple:
+    if at[0] in REDUCE_KINDS and len(at) == 4:
+        op, body, dom, lvl = at
+        new = f"@{depth}"
+        body2 = canon(rename_bound(body, f"#{lvl}", new), depth + 1)
+        dom2 = canon(rename_bound(dom, f"#{lvl}", new), depth + 1)
+        return atom_poly((op, body2, dom2, depth))
+    if at[0] == "dictacc":
+        ents = []
+        for kind, key, val, ctx in at[1]:
+            frames = [list(fr) for fr in ctx]  # [dom, lvl, conds]
+            d = depth
+            for i, fr in enumerate(frames):
+                old, new = f"#{fr[1]}", f"@{d}"
+                key, val = rename_bound(key, old, new), rename_bound(val, old, new)
+                fr[2] = rename_bound(tuple(fr[2]), old, new)
+                for later in frames[i + 1:]:
+                    later[0] = rename_bound(later[0], old, new)
+                    later[2] = rename_bound(tuple(later[2]), old, new)
+                fr[1] = d
+                d += 1
+            ctx2 = tuple((canon(fr[0], d), fr[1], tuple(sorted((canon(c, d) for c in fr[2]), key=_key))) for fr in frames)
+            ents.append((kind, canon(key, d), canon(val, d), ctx2))
+        ents.sort(key=_key)
+        rest = tuple(canon(y, depth) for y in at[2:])
+        return atom_poly(("dictacc", tuple(ents)) + rest)
+    return atom_poly((at[0],) + tuple(canon(y, depth) for y in at[1:]))
+
+
 def translate(expr: ast.AST, env=None, call_hook=None) -> tuple:
     return Translator(env, call_hook).tr(expr)
 
@@ -677,6 +851,9 @@ def compare(a: tuple, b: tuple) -> str:
     different only when neither side contains an opaque construct and both sides speak about the same
     leaf vocabulary (then distinct normal forms are distinct functions of the leaves, up to the
     incompleteness of the rewrite set which the self-test twins probe)."""
+    if a == b:
+        return "equal"
+    a, b = canon(a), canon(b)
     if a == b:
         return "equal"
     if has_opaque(a) or has_opaque(b):
